@@ -1088,6 +1088,8 @@ def _jnp_filled_or_sym(c):
 
 
 def _jnp_all(x, **k):
+    if any(v_ is not None and v_ is not False for v_ in k.values()):
+        return term('all', x, **k)                              # axis / keepdims / where: another reduction
     if isinstance(x, (list, tuple)):
         return Pred.conj([as_pred(v) for v in x])
     if isinstance(x, Pred):
@@ -1203,6 +1205,8 @@ def _isnan(x):
 
 
 def _jnp_any(x, **k):
+    if any(v_ is not None and v_ is not False for v_ in k.values()):
+        return term('any', x, **k)
     if isinstance(x, Sym) and x.op == 'isnan':
         return Sym('any_isnan', *x.args)
     # `any` over a collection of boolean scalars is their disjunction (one normal form with an or-accumulation over the same scalars)
@@ -1216,6 +1220,8 @@ def _jnp_any(x, **k):
 
 
 def _linspace(start, stop, num=50, endpoint=True, **kw):
+    if kw.get('retstep') or kw.get('axis') not in (None, 0):
+        raise Top(f"linspace with {sorted(k_ for k_ in kw if kw[k_] is not None)}")
     n = fz(num)
     if isinstance(n, int) and not isinstance(n, bool) and 0 < n <= 64 and not _is_opaque(start) and not _is_opaque(stop):
         # a concrete count: the points themselves, start + (stop - start) * k / (n or n - 1), as polynomials in the bounds
@@ -1244,6 +1250,8 @@ def _round(x, *a):
 
 
 def _meshgrid(*vecs, indexing="xy", **kw):
+    if kw.get('sparse'):
+        raise Top("meshgrid(sparse=True)")
     if any(_is_opaque(v) for v in vecs):
         return [Sym('meshgrid', tuple(fz(v) for v in vecs), fz(indexing), i) for i in range(len(vecs))]
     return alg.jnp_meshgrid(*vecs, indexing=indexing)
@@ -1361,6 +1369,9 @@ def _math_prod(x, *a, **k):
 
 
 def _take(a, indices, axis=None, **kw):
+    extra = {k_: v_ for k_, v_ in kw.items() if k_ in ('mode', 'fill_value') and v_ is not None}
+    if extra:
+        return term('take', a, indices, axis=axis, **extra)      # the out-of-bounds mode is part of what is computed
     if axis is not None and fz(axis) == 0 and isinstance(indices, Sym):
         return Sym('gather', fz(a), indices)          # rows of `a` at the index vector: same as a[indices]
     if isinstance(a, AT) and axis is not None and isinstance(fz(axis), int) and isinstance(fz(indices), int):
